@@ -1,5 +1,5 @@
 CONSTANTS NumCols = 64  WinBits = 8  SpNum = 3  SpDen = 32  OffBase = 19
-          Check = {"C01", "C05", "C06", "C11", "C18"}
+          Check = {"C01", "C05", "C06", "C11", "C12", "C18"}
 SPECIFICATION TSpec
 POSTCONDITION Accepted
 CHECK_DEADLOCK FALSE
